@@ -486,6 +486,34 @@ def j_clip(I, args, kw):
     raise Undecided("clip with array bounds")
 
 
+def j_pad(I, args, kw):
+    """zero padding: every axis is embedded at offset `before` in an axis of size before + size + after"""
+    it = _I()
+    v = _arr(args[0])
+    pw = args[1] if len(args) > 1 else kw["pad_width"]
+    mode = args[2] if len(args) > 2 else kw.get("mode", "constant")
+    cv = kw.get("constant_values", 0)
+    if mode != "constant" or not (it.is_num(cv) and D(cv).is_zero()):
+        raise Undecided("pad with a mode / constant other than zero padding")
+    nd = len(v.axes)
+    if it.is_num(pw):
+        pw = [(pw, pw)] * nd
+    elif isinstance(pw, (tuple, list)) and len(pw) == 2 and all(it.is_num(x) for x in pw):
+        pw = [tuple(pw)] * nd
+    elif isinstance(pw, (tuple, list)) and len(pw) == 1 and isinstance(pw[0], (tuple, list)):
+        pw = [tuple(pw[0])] * nd
+    pw = [tuple(x) for x in pw]
+    if len(pw) != nd or any(len(x) != 2 for x in pw):
+        raise ShapeError(f"pad: pad_width {pw} does not match an array of rank {nd}")
+    out = v
+    for ax, (lo, hi) in enumerate(pw):
+        lo, hi = D(lo), D(hi)
+        if lo.is_zero() and hi.is_zero():
+            continue
+        out = nf.embed_axis(out, ax, lo, lo + out.shape[ax] + hi)
+    return out
+
+
 def j_argsort(I, args, kw):
     """argsort of an index array of distinct entries is a permutation of its positions (an uninterpreted one: every permutation
     is realised by some index list); argsort of a permutation is its inverse; argsort of a sorted array is the identity."""
@@ -563,7 +591,22 @@ def j_all(I, args, kw):
 
 
 def j_logical_and(I, args, kw):
-    return nf.mul(_arr(args[0]), _arr(args[1]), what="logical_and")
+    r = nf.mul(_arr(args[0]), _arr(args[1]), what="logical_and")
+    r.kind = "bool"
+    return r
+
+
+def j_logical_or(I, args, kw):
+    a, b = _arr(args[0]), _arr(args[1])
+    r = nf.add(nf.add(a, b), nf.mul(a, b), -1)
+    r.kind = "bool"
+    return r
+
+
+def j_logical_not(I, args, kw):
+    r = nf.add(nf.const(1), _arr(args[0]), -1)
+    r.kind = "bool"
+    return r
 
 
 def _cmp0(kind):
@@ -947,8 +990,8 @@ EXT = {
     "jax.numpy.concatenate": j_concatenate, "jax.numpy.hstack": j_hstack, "jax.numpy.block": j_block,
     "jax.numpy.stack": j_stack, "jax.numpy.eye": j_eye, "jax.numpy.zeros": j_zeros, "jax.numpy.ones": j_ones,
     "jax.numpy.empty": j_empty, "jax.numpy.arange": j_arange, "jax.numpy.array": j_array,
-    "jax.numpy.where": j_where, "jax.numpy.maximum": j_maximum, "jax.numpy.clip": j_clip, "jax.numpy.argsort": j_argsort, "jax.numpy.sort": j_sort, "jax.numpy.max": j_max, "jax.numpy.all": j_all,
-    "jax.numpy.logical_and": j_logical_and, "jax.numpy.greater_equal": _cmp0("Ge"),
+    "jax.numpy.where": j_where, "jax.numpy.maximum": j_maximum, "jax.numpy.clip": j_clip, "jax.numpy.argsort": j_argsort, "jax.numpy.pad": j_pad, "jax.numpy.sort": j_sort, "jax.numpy.max": j_max, "jax.numpy.all": j_all,
+    "jax.numpy.logical_and": j_logical_and, "jax.numpy.logical_or": j_logical_or, "jax.numpy.logical_not": j_logical_not, "jax.numpy.greater_equal": _cmp0("Ge"),
     "jax.numpy.less_equal": _cmp0("Le"), "jax.numpy.equal": _cmp0("Eq"), "jax.numpy.isfinite": j_isfinite,
     "jax.numpy.squeeze": j_squeeze, "jax.numpy.ix_": j_ix, "jax.numpy.setxor1d": j_setxor1d,
     "jax.numpy.exp": _elementwise("Exp"), "jax.numpy.log": _elementwise("Log"), "jax.numpy.sqrt": _elementwise("Sqrt"),
@@ -1102,11 +1145,38 @@ def array_binop(I, op, l, r):
             return pow_array_exponent(I, l, r)
         raise Undecided("array power with non-small-integer exponent")
     if isinstance(op, ast.MatMult):
-        l, r = _arr(l), _arr(r)
-        if len(l.axes) == 2 and len(r.axes) == 2:
-            return nf.einsum("ab,bc->ac", l, r, what="matmul")
-        raise Undecided("matmul of batched operands")
+        return matmul_vals(_arr(l), _arr(r))
+    if isinstance(op, (ast.BitAnd, ast.BitOr)) and isinstance(l, Val) and isinstance(r, Val) and l.kind == "bool" and r.kind == "bool":
+        # 0/1 indicators:  a & b = a b,  a | b = a + b - a b
+        prod = nf.mul(l, r, what="&")
+        out = prod if isinstance(op, ast.BitAnd) else nf.add(nf.add(l, r), prod, -1)
+        out.kind = "bool"
+        return out
     raise Undecided(f"array operator {type(op).__name__}")
+
+
+def matmul_vals(l, r):
+    """numpy matmul semantics: 1-D operands are promoted, leading (batch) axes broadcast"""
+    if not l.axes or not r.axes:
+        raise ShapeError("matmul: 0-d operand")
+    if len(l.axes) == 2 and len(r.axes) == 2:
+        return nf.einsum("ab,bc->ac", l, r, what="matmul")
+    l1, r1 = len(l.axes) == 1, len(r.axes) == 1
+    if l1:
+        l = nf.expand_dims(l, [None, "k"])
+    if r1:
+        r = nf.expand_dims(r, ["k", None])
+    if l.shape[-1] != r.shape[-2]:
+        raise ShapeError(f"matmul: contracted sizes differ ({l.shape[-1]} vs {r.shape[-2]})")
+    nd = max(len(l.axes), len(r.axes))
+    l = nf.expand_dims(l, [None] * (nd - len(l.axes)) + ["k"] * len(l.axes) + [None])         # [..., i, k, 1]
+    r = nf.expand_dims(r, [None] * (nd - len(r.axes)) + ["k"] * (len(r.axes) - 2) + [None, "k", "k"])   # [..., 1, k, j]
+    out = nf.sum_axis(nf.mul(l, r, what="matmul"), -2, False)
+    if l1:
+        out = Val(out.axes[:-2] + out.axes[-1:], out.terms)
+    if r1:
+        out = Val(out.axes[:-1], out.terms)
+    return out
 
 
 def array_compare(I, op, l, r):
